@@ -1,8 +1,9 @@
 """C11 - Player state is isolated per player and restored on their next turn.
 
 SUT: a device-less multi-player game (balls end through `ball_drain`, as in MpfFakeGameTestCase) with two
-game modes holding persisted counters / accrual / sequence, shots (3-state profile, persist_enable) + shot
-group, achievements, a timer, a non-persisted counter, variable_player scoring on int/float/str player vars.
+game modes holding persisted counters / accrual / sequence, shots (3-state profile, persist_enable) + two shot
+groups (one with enable/disable_rotation_events), achievements, a timer, a non-persisted counter, variable_player
+scoring on int/float/str player vars, and a machine-wide score queue (SS style digit-by-digit scoring).
 
 Oracles (all written from the statement):
   model      a per-player shadow (models/c11_model.py) that is changed only by events dispatched while the
@@ -29,6 +30,11 @@ Relaxations (what the statement leaves open; marked R-... in the code):
                               start_value whenever the player's mode loads; what is checked is that it belongs to
                               the player (nobody else's turn touches it) and that events replay to its value.
   R-intended-cross-write      `player: 1` in a variable_player entry (variable gift) is an intended write.
+  R-queued-score-arrives-late points queued through the score queue (sq_pts) arrive digit by digit; they may reach
+                              their owner after his turn (exempt from the snapshot oracle), but every step must be
+                              covered by points this very player queued in his own ball and has not received yet,
+                              and what he earned in earlier balls has arrived when his next ball starts.
+Shot group sg2 (enable_rotation_events): rotation starts from the config (off) whenever its mode starts.
 Not relaxed: a player variable or persisted device state of a player who is not up never changes; a delayed
 control event or timeout scheduled in one player's ball never lands in another player's state; MPF survives any
 event between turns / games.
